@@ -77,6 +77,10 @@ def check_site(ctx, rule, k, u, f, call):
             if a.get('kind') == 'VarDecl':
                 dv = a
                 break
+            if a.get('kind') == 'BinaryOperator' and a.get('opcode') == '=' and peel(kids(a)[0]).get('kind') == 'DeclRefExpr' and \
+                    (peel(kids(a)[0]).get('referencedDecl') or {}).get('kind') == 'VarDecl':
+                dv = u.by_id.get(peel(kids(a)[0])['referencedDecl'].get('id'))      # (an existing local given the digit value anew)
+                break
             if a.get('kind') not in ('ImplicitCastExpr', 'ParenExpr', 'CXXStaticCastExpr', 'CStyleCastExpr'):
                 break
         ok = c_nonnul
